@@ -21,80 +21,12 @@
 (* of the bounded universe, every path and value; the same operations are  *)
 (* replayed on the real class, together with the non-mutation check.       *)
 (***************************************************************************)
-EXTENDS Integers, Sequences, FiniteSets, TLC, Json
+EXTENDS Integers, Sequences, FiniteSets, TLC, Json, TreeOps
 
 CONSTANTS TreeDepth,   \* depth of the initial trees
           MaxSets,     \* copy-and-set operations per behaviour
           PathLen,     \* maximal path length
           KeyA, KeyB   \* the two dict key names; one run uses "SELF" (the plain string, not Key.SELF)
-
-Leaf(v)        == [k |-> "leaf",  v |-> v, keys |-> <<>>, kids |-> <<>>]
-Dict(ks, cs)   == [k |-> "dict",  v |-> 0, keys |-> ks,   kids |-> cs]
-List(cs)       == [k |-> "list",  v |-> 0, keys |-> <<>>, kids |-> cs]
-Tuple(cs)      == [k |-> "tuple", v |-> 0, keys |-> <<>>, kids |-> cs]
-Null           == [k |-> "null",  v |-> 0, keys |-> <<>>, kids |-> <<>>]
-ERRT           == [k |-> "err",   v |-> 0, keys |-> <<>>, kids |-> <<>>]
-IsErr(t)       == t.k = "err"
-
-PKey(s) == [t |-> "key",  s |-> s,  i |-> 0]
-PIdx(i) == [t |-> "idx",  s |-> "", i |-> i]
-PSelf   == [t |-> "self", s |-> "", i |-> 0]
-PSkip   == [t |-> "skip", s |-> "", i |-> 0]
-
-KeyOf(e) == IF e.t = "key" THEN e.s ELSE ToString(e.i)
-KeyPos(t, s) == IF \E j \in 1..Len(t.keys) : t.keys[j] = s
-                THEN CHOOSE j \in 1..Len(t.keys) : t.keys[j] = s ELSE 0
-
-\* ------------------------------------------------------------------ Get
-RECURSIVE Get(_, _)
-Get(t, p) ==
-  IF p = <<>> THEN t
-  ELSE LET e == Head(p) IN
-    IF e.t = "self" THEN t
-    ELSE IF e.t = "skip" THEN ERRT
-    ELSE IF t.k = "dict" THEN
-      LET j == KeyPos(t, KeyOf(e)) IN IF j = 0 THEN ERRT ELSE Get(t.kids[j], Tail(p))
-    ELSE IF t.k \in {"list", "tuple"} THEN
-      IF e.t = "idx" /\ e.i < Len(t.kids) THEN Get(t.kids[e.i + 1], Tail(p)) ELSE ERRT
-    ELSE ERRT
-
-\* ------------------------------------------------------------------ Set (copying)
-RECURSIVE Default(_, _)
-Default(p, v) ==         \* _default_tree
-  IF p = <<>> THEN v
-  ELSE LET e == Head(p)
-           d == Default(Tail(p), v) IN
-    IF IsErr(d) THEN ERRT
-    ELSE IF e.t = "idx" THEN (IF e.i = 0 THEN List(<<d>>) ELSE ERRT)
-    ELSE IF e.t = "key" THEN Dict(<<e.s>>, <<d>>)
-    ELSE ERRT            \* SELF / SKIP below a fresh key are outside the modelled universe
-
-RECURSIVE Set(_, _, _)
-Set(t, p, v) ==
-  IF p = <<>> THEN v
-  ELSE LET e == Head(p) IN
-    IF e.t = "self" THEN v
-    ELSE IF t.k = "null" THEN Default(p, v)
-    ELSE IF t.k = "leaf" THEN ERRT                        \* "Insert to immutable"
-    ELSE IF e.t = "skip" THEN t
-    ELSE IF t.k \in {"list", "tuple"} THEN
-      IF e.t # "idx" THEN ERRT
-      ELSE IF e.i = Len(t.kids) THEN                       \* append
-        LET c == Set(Null, Tail(p), v) IN
-        IF IsErr(c) THEN ERRT ELSE [t EXCEPT !.kids = Append(@, c)]
-      ELSE IF e.i < Len(t.kids) THEN
-        LET c == Set(t.kids[e.i + 1], Tail(p), v) IN
-        IF IsErr(c) THEN ERRT ELSE [t EXCEPT !.kids[e.i + 1] = c]
-      ELSE ERRT
-    ELSE                                                   \* dict
-      LET ks == KeyOf(e)
-          j  == KeyPos(t, ks) IN
-      IF j = 0 THEN
-        LET c == Set(Null, Tail(p), v) IN
-        IF IsErr(c) THEN ERRT ELSE [t EXCEPT !.keys = Append(@, ks), !.kids = Append(@, c)]
-      ELSE
-        LET c == Set(t.kids[j], Tail(p), v) IN
-        IF IsErr(c) THEN ERRT ELSE [t EXCEPT !.kids[j] = c]
 
 \* ------------------------------------------------------------------ Leaves
 RECURSIVE Leaves(_, _), LeavesOfKids(_, _, _)
